@@ -35,8 +35,12 @@ def same_ip(a, b, violations, what, shapes_as_1d=False, single=False):
             return
         for k in pa:
             va, vb = flat(pa[k]), flat(pb[k])
-            tol = 1e-6 if single else 1e-12
-            if len(va) != len(vb) or any(abs(x - y) > tol * max(1, abs(x)) for x, y in zip(va, vb)):
+            if single:
+                # single precision: the two values are the same float32 number (not merely close)
+                differ = len(va) != len(vb) or any(np.float32(x) != np.float32(y) for x, y in zip(va, vb))
+            else:
+                differ = len(va) != len(vb) or any(abs(x - y) > 1e-12 * max(1, abs(x)) for x, y in zip(va, vb))
+            if differ:
                 violations.append(dict(key=f"{what}: values of {k} for {i}: {vb} instead of {va}"))
                 return
             if not shapes_as_1d and (isinstance(pa[k], list) != isinstance(pb[k], list)):
@@ -44,10 +48,15 @@ def same_ip(a, b, violations, what, shapes_as_1d=False, single=False):
                 return
 
 
-VALUE_KINDS = ["float", "int", "np.float32", "np.float64", "np.int64", "ndarray"]
+# "*_full": values that need every digit of their type (17 significant digits for a double, 9 for a single-precision number)
+VALUE_KINDS = ["float", "int", "np.float32", "np.float64", "np.int64", "ndarray", "float_full", "np.float32_full"]
 
 
 def cast(x, kind):
+    if kind == "float_full":
+        return float(x) * math.pi / 3.0
+    if kind == "np.float32_full":
+        return np.float32(float(x) * math.pi / 3.0)
     if kind == "float":
         return float(x)
     if kind == "int":
@@ -126,7 +135,7 @@ def standin_conversions(tier, seed):
                         ip.save(path)
                         back = IndividualParameters.load(path)
                     same_ip(ip, back, violations, f"dict -> {ext} file -> dict ({[n for n, _ in naming]})",
-                            shapes_as_1d=(ext == "csv"))
+                            shapes_as_1d=(ext == "csv"), single=kind.startswith("np.float32"))     # single-precision inputs: compared as such
                 except Exception as e:
                     violations.append(dict(key=f"save / load {ext} raises {type(e).__name__} for shapes {[s for _, s in naming]}, values {kind}: {str(e)[:80]}"))
             if len(samples) < 2:
@@ -158,7 +167,7 @@ def standin_conversions(tier, seed):
     return dict(evaluations=evals, distinct_nontrivial=len(distinct),
                 rule="one evaluation = one conversion round trip of a container (identifiers x naming x shapes); distinct = (ids, naming)",
                 samples=samples, violations=list(uniq.values())[:60],
-                bound=dict(space="6 identifier sets x 10 namings/shapes x 6 value types x 4 conversion paths + 7 invalid additions", exhaustive=True))
+                bound=dict(space="6 identifier sets x 10 namings/shapes x 8 value types (two needing every digit of their precision) x 4 conversion paths + 7 invalid additions", exhaustive=True))
 
 
 STANDINS = [standin_conversions]
